@@ -466,6 +466,27 @@ pub fn run_c08(o: &mut Out, tier: &str, seed: u64) {
             }
         }
     }
+    // adversarial legacy fields: the unmasked amount SCALAR is wider than 64 bits (a' = a + t*2^64, or a' = l - small) and the
+    // commitment is y*G + a'*H. Only the low 64 bits could be reported as the amount, and y*G + low64(a')*H != C, so nothing may
+    // be reported (C08_opening_sound); a check done with the full scalar would let it through.
+    for i in 0..(if thorough { 60 } else { 12 }) {
+        let v = Scalar::from_bytes_mod_order(rng.arr32()); let R = Scalar::from_bytes_mod_order(rng.arr32()) * G; let n = rng.below(5);
+        let k = deriv_scalar(&derivation(&v, &R), n);
+        let y = Scalar::from_bytes_mod_order(rng.arr32());
+        let low = *rng.pick(&amounts);
+        let wide = match i % 3 { 0 => Scalar::from(low) + Scalar::from(rng.range(1, 1 << 40)) * Scalar::from(u64::MAX) + Scalar::from(rng.range(1, 1 << 40)), 1 => -Scalar::from(rng.range(1, 1000)), _ => Scalar::from_bytes_mod_order(rng.arr32()) };
+        let s1 = hs(k.as_bytes()); let s2 = hs(s1.as_bytes());
+        let e = cat(&[&(y + s1).to_bytes(), &(wide + s2).to_bytes()]);
+        let c = enc(&(y * G + wide * H()));
+        let line = format!("c08_open {} {} {} {} {} {}", hex(v.as_bytes()), vS, hex(&enc(&R)), n, hex(&e), hex(&c));
+        let got = o.op(line.clone(), true);
+        let sound = match got.split(' ').collect::<Vec<_>>().as_slice() {
+            ["none"] => true,
+            ["ok", a2, y2] => { let yb: [u8; 32] = unhex(y2).try_into().unwrap(); let y2 = Scalar::from_bytes_mod_order(yb); let a2: u64 = a2.parse().unwrap(); CompressedEdwardsY(c).decompress().map(|p| p == commitment(&y2, a2)).unwrap_or(false) }
+            _ => false };
+        o.direct(sound, "a reported opening opens the commitment (y'G + a'H = C)", line, got.clone(), "none or a valid opening".into());
+        o.stat(&format!("wide-amount-scalar:{}", if got == "none" { "none" } else { "ok" }));
+    }
     // the identity as commitment (a = 0, y = 0): canonical and non-canonical encodings of the same point
     {
         let v = Scalar::from_bytes_mod_order(rng.arr32()); let R = Scalar::from_bytes_mod_order(rng.arr32()) * G;
